@@ -38,7 +38,7 @@ type Mutant struct {
 
 type mutantResult struct {
 	Name   string `json:"name"`
-	Status string `json:"status"` // caught | missed | stale | error | expected-miss | unexpectedly-caught
+	Status string `json:"status"` // caught | missed | stale | error | expected-miss | unexpectedly-caught | silent-twin | residual-alarm
 	Detail string `json:"detail,omitempty"`
 }
 
@@ -179,7 +179,7 @@ func runMutants(c *Ctx, pd *propDef, repo, verif string) {
 		}(i, m)
 	}
 	wg.Wait()
-	applied, caught, stale, missed, twins := 0, 0, 0, 0, 0
+	applied, caught, stale, missed, twins, residual := 0, 0, 0, 0, 0, 0
 	for _, r := range results {
 		switch r.Status {
 		case "caught":
@@ -189,6 +189,8 @@ func runMutants(c *Ctx, pd *propDef, repo, verif string) {
 			applied++
 		case "silent-twin":
 			twins++
+		case "residual-alarm":
+			residual++
 		case "missed", "unexpectedly-caught":
 			applied++
 			missed++
@@ -207,6 +209,7 @@ func runMutants(c *Ctx, pd *propDef, repo, verif string) {
 	c.Extra["mutants_caught"] = caught
 	c.Extra["mutants_stale"] = stale
 	c.Extra["refactoring_twins_silent"] = twins
+	c.Extra["refactoring_twins_with_documented_alarm"] = residual
 	c.Extra["mutants_missed_unexpectedly"] = missed
 	c.Extra["mutant_results"] = results
 }
@@ -292,7 +295,12 @@ func runOneMutant(exe, repo, verif, prop string, m Mutant) mutantResult {
 			}
 		}
 	}
+	residualTwin := strings.HasPrefix(m.Name, "refactor/") && wantCaught
 	switch {
+	case residualTwin && exit == 1:
+		res.Status, res.Detail = "residual-alarm", m.Note // a documented false alarm on a re-architected twin
+	case residualTwin && exit == 0:
+		res.Status, res.Detail = "silent-twin", "no longer alarms: remove the residual_alarms entry from its meta.json"
 	case exit == 1 && named && wantCaught:
 		res.Status = "caught"
 	case exit == 1 && !named && wantCaught:
